@@ -15,11 +15,12 @@ def jobs(tier):
         # assertions-on configuration: thorough
         js += B.line_level(Job, d, B.CFG_ASSERT, "thorough")
         js.append(B.framing(Job, d, B.CFG_ASSERT, "thorough"))
+    js.append(B.set_dialect(Job, B.CFG_NDEBUG))          # the ten dialect names select the dialects the man page says
     return js
 
 META = {
     "trusted_base": B.BASIC_TRUSTED,
     "assumptions": ["input files of at most 16 MiB", "indentation monitor takes the weaker reading where the statement is silent (DESIGN.md C03)"],
     "outside": ["equality of what the OS delivers through a file and through standard input (C03 last clause): both reach decode_file(dec, name, FILE*)"],
-    "explanation": "L1 table lemma (real build_mapping vs spec table), L2 line lemmas (print_target_line_number, count, handle_token, decode_line vs the line monitor), L3 framing lemma (program decoders vs the framing automaton, decode_line replaced by its contract), decode_file picks the decoder by dialect",
+    "explanation": "L1 table lemma (real build_mapping vs spec table), L2 line lemmas (print_target_line_number, count, handle_token, decode_line vs the line monitor), L3 framing lemma (program decoders vs the framing automaton, decode_line replaced by its contract), decode_file picks the decoder by dialect; set_dialect maps the ten documented names (and no other) to their dialects",
 }
